@@ -177,6 +177,10 @@ def split_traces(tracefile):
 def select_scenarios(prop, tier):
     nws = (2,) if tier == "quick" else (1, 2, 3)
     fams = [s for s in families.all_families(nws) if prop in s["props"]]
+    if prop in ("C04", "C05", "C06", "C15"):
+        # seeded random well-typed systems (no promise about termination or confluence)
+        k = 10 if tier == "quick" else 120
+        fams += [families.random_scenario(common.seed() * 1000 + i, 2) for i in range(k)]
     if prop == "C05":
         # seeded sample of the cross product (source lists of length <= 3) x (mailbox pre-loads) x (late arrivals)
         fams += families.select_product(common.seed(), 8 if tier == "quick" else 60, 2)
